@@ -36,7 +36,7 @@ def checks_for(seed: str, patch: str):
                 for c in v:
                     if c not in out:
                         out.append(c)
-    if own in ("C06",) or seed == "C07-2":
+    if own in ("C06",) or seed in ("C07-2", "C07-3"):
         if "C06" not in out:
             out.append("C06")
     return out
